@@ -25,7 +25,10 @@ META = {
         "indices (gstep_eq_uf/gds_simulates), KeyError exactly for absent values, with the partition "
         "theorems transported to values (gstep_refines/gds_history/g_union_left_rep). The hand-written models are tied to /repo by running every "
         "operation sequence up to a bound (exhaustive) plus long random ones on the real classes and "
-        "on the Lean driver and diffing every return value."
+        "on the Lean driver and diffing every return value. ScopedDict objects are also exercised as a forest of "
+        "live handles (outer scope written while inner scopes exist; Lean model scoped_forest, theorem "
+        "forest_lookup_forms), and the union-find classes as several instances sharing one constructor argument "
+        "with interleaved operations (each instance must behave as if alone)."
     ),
     "technique": "Lean 4 refinement proofs + exhaustive/random differential correspondence with the real classes",
     "level_note": (
@@ -33,7 +36,9 @@ META = {
         "(tied by correspondence only: all histories up to the bound, random beyond); Python dict/list "
         "semantics; DisjointSet.add of an already present value / duplicate initial values are outside "
         "the API contract ('add a new value'): no oracle and no theorem there, but the Lean model of "
-        "the wrapper is still compared with the code on such inputs."
+        "the wrapper is still compared with the code on such inputs. ScopedDict(local_scope=…) deliberately "
+        "aliases the caller's dict and is not exercised; caller-side mutation is applied only to the Sequence handed "
+        "to DisjointSet (whose documented behaviour is 'initial values')."
     ),
     "rule": (
         "worklist: every sequence over {push x, remove x, pop, bool} x∈{0,1,2} up to the length bound, "
@@ -43,6 +48,11 @@ META = {
         "the bound with all find/connected queries after each step, non-trivial = ≥1 successful merge; "
         "the same for the generic DisjointSet over 3 values + 1 absent value + add (compared with both "
         "the index model and the value model); "
+        "scoped forest (all created scopes stay alive): every sequence over {new p, set s k v} up to the bound (≤4 scopes) "
+        "with all lookup forms from EVERY scope after every step, non-trivial = a scope that already has a child is "
+        "written; shared instances: two DisjointSet/IntDisjointSet instances built from the SAME list/tuple object, "
+        "every interleaving up to the bound of add/union/union_left on either and of the caller appending to its "
+        "list, each instance judged on its own operations only, non-trivial = ≥2 instances mutated; "
         "plus seeded random long histories (incl. add and out-of-range KeyError calls). Distinct = "
         "distinct operation sequence."
     ),
@@ -290,6 +300,203 @@ def run_scoped_dict(ctx: core.Ctx, maxlen: int, nrandom: int) -> None:
     ctx.sample({"structure": "scoped_dict", "mutations": [list(m) for m in mid], "impl_tail": sd_impl(mid)[1][-8:]})
 
 
+# --- several scopes alive at once ---------------------------------------------------------------
+# The chain family above always works on the innermost scope: an outer scope is never written while
+# an inner one still exists.  ScopedDict objects are ordinary handles, though (the interpreter, the
+# printer and the parser all keep outer scopes around and write them while inner ones are alive), and
+# the property speaks of "every sequence of operations".  Here every created scope stays reachable:
+# `new p` makes a child of scope p (`new` a further root), `set s k v` writes scope s, and after every
+# mutation all lookup forms are issued from scopes of the forest.  The answer must depend on the
+# current bindings of the scope and its ancestors only — not on what was looked up before.
+
+def sdf_queries(keys):
+    return [q for k in keys for q in (("getitem", k), ("contains", k), ("get", k, None), ("get", k, 7))]
+
+
+def sdf_plan(ops, keys, pick=None):
+    """the full line plan of a case: after the reset and after every mutation, queries from the scopes
+    `pick(step, nscopes)` (default: all).  Returns a list of ('new', p|None) / ('set', s, k, v) /
+    ('q', s, query)."""
+    plan, n = [], 1
+    qs = sdf_queries(keys)
+
+    def ask(step):
+        for s in (range(n) if pick is None else pick(step, n)):
+            plan.extend(("q", s, q) for q in qs)
+
+    ask(0)
+    for i, op in enumerate(ops):
+        plan.append(tuple(op))
+        if op[0] == "new":
+            n += 1
+        ask(i + 1)
+    return plan
+
+
+def sdf_line(item) -> str:
+    if item[0] == "new":
+        return "new" if item[1] is None else f"new {item[1]}"
+    if item[0] == "set":
+        return f"at {item[1]} set {item[2]} {sd_show(item[3])}"
+    q = item[2]
+    return f"at {item[1]} " + " ".join([q[0], str(q[1])] + ([sd_show(q[2])] if q[0] == "get" else []))
+
+
+def sdf_impl(plan) -> list[str]:
+    from xdsl.utils.scoped_dict import ScopedDict
+
+    scopes: list[Any] = [ScopedDict()]
+    out = ["ok"]
+    for it in plan:
+        try:
+            if it[0] == "new":
+                scopes.append(ScopedDict() if it[1] is None else ScopedDict(scopes[it[1]])); out.append("ok")
+            elif it[0] == "set":
+                scopes[it[1]][it[2]] = it[3]; out.append("ok")
+            else:
+                d, q = scopes[it[1]], it[2]
+                if q[0] == "getitem":
+                    out.append("val " + sd_show(d[q[1]]))
+                elif q[0] == "contains":
+                    out.append("bool " + ("true" if q[1] in d else "false"))
+                else:
+                    out.append("val " + sd_show(d.get(q[1], q[2])))
+        except Exception as e:  # noqa: BLE001
+            out.append("raise " + core.exc_name(e))
+    return out
+
+
+def sdf_spec(plan) -> list[str]:
+    """independent reference: plain dicts + parent indices; innermost binding by walking up"""
+    parent: list[int | None] = [None]
+    local: list[dict] = [{}]
+    out = ["ok"]
+    for it in plan:
+        if it[0] == "new":
+            parent.append(it[1]); local.append({}); out.append("ok")
+        elif it[0] == "set":
+            local[it[1]][it[2]] = it[3]; out.append("ok")
+        else:
+            s, q = it[1], it[2]
+            while s is not None and q[1] not in local[s]:
+                s = parent[s]
+            if q[0] == "getitem":
+                out.append("raise KeyError" if s is None else "val " + sd_show(local[s][q[1]]))
+            elif q[0] == "contains":
+                out.append("bool " + ("true" if s is not None else "false"))
+            else:
+                out.append("val " + sd_show(q[2] if s is None else local[s][q[1]]))
+    return out
+
+
+def sdf_enumerate(maxlen: int, keys, vals, maxscopes: int):
+    """every mutation sequence up to `maxlen` over {new p (p an existing scope), set s k v}"""
+    seq: list[tuple] = []
+
+    def rec(n):
+        yield tuple(seq)
+        if len(seq) == maxlen:
+            return
+        if n < maxscopes:
+            for p in range(n):
+                seq.append(("new", p)); yield from rec(n + 1); seq.pop()
+        for s in range(n):
+            for k in keys:
+                for v in vals:
+                    seq.append(("set", s, k, v)); yield from rec(n); seq.pop()
+
+    yield from rec(1)
+
+
+def run_scoped_forest(ctx: core.Ctx, families, nrandom: int) -> None:
+    cases: list[tuple[tuple, list, Any]] = []  # (ops, keys, pick)
+    for maxlen, keys, vals, maxscopes in families:
+        for ops in sdf_enumerate(maxlen, keys, vals, maxscopes):
+            cases.append((ops, keys, None))
+    ctx.count("scoped_forest.exhaustive_sequences", len(cases))
+    rnd = ctx.rng
+    for _ in range(nrandom):
+        keys = list(range(rnd.randint(1, 3)))
+        ops: list[tuple] = []
+        n = 1
+        for _ in range(rnd.randint(6, 30)):
+            if n < 8 and rnd.random() < 0.3:
+                # mostly deepen the newest scope (long chains), sometimes branch, rarely a new root
+                r = rnd.random()
+                ops.append(("new", None if r < 0.05 else n - 1 if r < 0.6 else rnd.randrange(n)))
+                n += 1
+            else:
+                ops.append(("set", rnd.randrange(n), rnd.choice(keys), rnd.choice([None, 0, 1, 2])))
+        picks = [[rnd.randrange(8) for _ in range(3)] for _ in range(len(ops) + 1)]
+        cases.append((tuple(ops), keys,
+                      (lambda step, m, picks=picks: sorted({x % m for x in picks[step]} | {m - 1}))))
+    all_lines: list[str] = []
+    all_impl: list[str] = []
+    for ops, keys, pick in cases:
+        plan = sdf_plan(ops, keys, pick)
+        impl, spec = sdf_impl(plan), sdf_spec(plan)
+        lines = ["reset"] + [sdf_line(it) for it in plan]
+        ctx.ev()
+        # non-trivial: some scope that has a descendant is written after that descendant was created
+        haskid: set[int] = set()
+        nscopes = 1
+        for op in ops:
+            if op[0] == "new":
+                if op[1] is not None:
+                    haskid.add(op[1])
+                nscopes += 1
+            elif op[1] in haskid:
+                ctx.nt(("sdf", ops))
+                break
+        if impl != spec:
+            i = core.diff_streams(impl, spec)
+            # shrink: drop mutations (renumbering is avoided: only `set`s and trailing ops are dropped)
+            def still(c, keys=keys):
+                try:
+                    pl = sdf_plan(c, keys)
+                    return sdf_impl(pl) != sdf_spec(pl)
+                except Exception:  # noqa: BLE001
+                    return False
+            small = list(ops)
+            if still(small):
+                changed = True
+                while changed:
+                    changed = False
+                    for j in range(len(small) - 1, -1, -1):
+                        if small[j][0] == "set" or j == len(small) - 1:
+                            c = small[:j] + small[j + 1:]
+                            if still(c):
+                                small = c; changed = True
+                pl = sdf_plan(small, keys)
+                im, sp = sdf_impl(pl), sdf_spec(pl)
+                i = core.diff_streams(im, sp)
+                pl = pl[:i]  # i indexes the outputs, which have the leading reset "ok"
+                qline, got, want = sdf_line(pl[-1]), im[i], sp[i]
+                case = {"structure": "scoped_forest", "ops": [list(o) for o in small], "keys": list(keys), "query": qline}
+            else:  # only manifests with the sampled query schedule: keep the literal plan
+                pl = plan[:i]
+                qline, got, want = sdf_line(pl[-1]), impl[i], spec[i]
+                case = {"structure": "scoped_forest", "plan": [list(x) if x[0] != "q" else ["q", x[1], list(x[2])] for x in pl],
+                        "query": qline}
+            form = qline.split()[2]
+            site = {"get": "get", "getitem": "__getitem__", "contains": "__contains__"}.get(form, form)
+            ctx.fail(f"xdsl.utils.scoped_dict.ScopedDict.{site}",
+                     "lookup from a scope differs from the innermost binding after another live scope was written",
+                     case, f"`{qline}` returned `{got}`, the innermost binding now is `{want}`", got, want)
+        all_lines.extend(lines)
+        all_impl.extend(impl)
+    ctx.count("scoped_forest.cases", len(cases))
+    ctx.count("scoped_forest.lines", len(all_lines))
+    model = ctx.model("scoped_forest", all_lines)
+    i = core.diff_streams(all_impl, model)
+    if i is not None:
+        j = max(k for k in range(i + 1) if all_lines[k] == "reset")
+        ctx.mismatch("correspondence:C12/scoped_forest", {"structure": "scoped_forest", "lines": all_lines[j: i + 1]},
+                     all_impl[j: i + 1], model[j: i + 1])
+    mid = cases[len(cases) // 2]
+    ctx.sample({"structure": "scoped_forest", "ops": [list(o) for o in mid[0]], "keys": list(mid[1])})
+
+
 # ---------------------------------------------------------------------------------------------
 # Union-find
 # ---------------------------------------------------------------------------------------------
@@ -322,46 +529,66 @@ def gval(i: int) -> int:
     return (i * 37 + 11) % 257
 
 
-def uf_run(n: int, seq, generic: bool):
-    """Run `seq` on the real IntDisjointSet (or DisjointSet over the values gval(i) when `generic`).
-    Returns (index-level protocol lines, impl outputs on indices, oracle complaint or None,
-    None | (value-level protocol lines, impl outputs on values))."""
-    from xdsl.utils.disjoint_set import DisjointSet, IntDisjointSet
+class UFRunner:
+    """One real IntDisjointSet (or DisjointSet over the values gval(·) when `generic`) driven step by
+    step next to the reference partition, with the direct oracle of the property.  `ds` may be handed
+    in (an instance built by the caller, e.g. from an argument object shared with other instances);
+    `shift` moves the values this instance *adds* (index ≥ the initial n) to gval(i + shift) so that
+    different instances add different values.
+    After the run: lines/out = index-level protocol and observations, glines/gout = value-level ones
+    (generic only), complaint = None | [message, position in out]."""
 
-    glines: list[str] = []
-    gout: list[str] = []
-    if generic:
-        names = [gval(i) for i in range(n)]
-        ds: Any = DisjointSet(list(names))
-        enc = gval  # a value not (yet) added is simply absent -> KeyError
-        dec = lambda v: names.index(v)  # noqa: E731
-        glines.append("reset " + " ".join(map(str, names)))
-        gout.append("ok")
-    else:
-        ds = IntDisjointSet(size=n)
-        enc = dec = lambda i: i  # noqa: E731
-    ref = RefPartition(n)
-    lines, out = [f"reset {n}"], ["ok"]
-    complaint = None
+    def __init__(self, n: int, generic: bool, ds: Any = None, shift: int = 0):
+        from xdsl.utils.disjoint_set import DisjointSet, IntDisjointSet
 
-    def bad(msg):
-        nonlocal complaint
-        if complaint is None:
-            complaint = [msg, len(out)]
-
-    for op in seq:
-        lines.append(" ".join(map(str, op)))
+        self.generic, self.n0, self.shift = generic, n, shift
+        self.glines: list[str] = []
+        self.gout: list[str] = []
         if generic:
-            glines.append(" ".join([op[0]] + [str(gval(x)) for x in op[1:]]) if op[0] != "add"
-                          else f"add {gval(len(names))}")
+            self.names = [gval(i) for i in range(n)]
+            self.ds = DisjointSet(list(self.names)) if ds is None else ds
+            self.glines.append("reset " + " ".join(map(str, self.names)))
+            self.gout.append("ok")
+        else:
+            self.ds = IntDisjointSet(size=n) if ds is None else ds
+        self.ref = RefPartition(n)
+        self.lines, self.out = [f"reset {n}"], ["ok"]
+        self.complaint: list | None = None
+
+    # a value not (yet) added is simply absent -> KeyError
+    def enc(self, i: int):
+        if not self.generic:
+            return i
+        return gval(i) if i < self.n0 else gval(i + self.shift)
+
+    def dec(self, v) -> int:
+        if not self.generic:
+            return v
+        # a value that is not an element of THIS structure is in nobody's class
+        return self.names.index(v) if v in self.names else -1
+
+    def bad(self, msg: str) -> None:
+        if self.complaint is None:
+            self.complaint = [msg, len(self.out)]
+
+    def same(self, r: int, x: int) -> bool:
+        return 0 <= r < len(self.ref.cls) and self.ref.same(r, x)
+
+    def step(self, op) -> None:
+        generic, ds, ref, out, gout, enc, dec, bad = (self.generic, self.ds, self.ref, self.out, self.gout,
+                                                      self.enc, self.dec, self.bad)
+        self.lines.append(" ".join(map(str, op)))
+        if generic:
+            self.glines.append(" ".join([op[0]] + [str(enc(x)) for x in op[1:]]) if op[0] != "add"
+                               else f"add {enc(len(self.names))}")
         try:
             if op[0] == "add":
                 if generic:
-                    names.append(gval(len(names)))
-                    res = ds.add(names[-1])
+                    self.names.append(enc(len(self.names)))
+                    res = ds.add(self.names[-1])
                     gout.append("none" if res is None else f"unexpected {res!r}")
-                    r = len(names) - 1
-                    if len(ds) != len(names):
+                    r = len(self.names) - 1
+                    if len(ds) != len(self.names):
                         bad("len() after add is not the number of values")
                 else:
                     r = ds.add()
@@ -376,7 +603,7 @@ def uf_run(n: int, seq, generic: bool):
                 else:
                     r = ds[op[1]]
                 out.append(f"nat {r}")
-                if not ref.same(r, op[1]):
+                if not self.same(r, op[1]):
                     bad(f"find({op[1]}) = {r} is not in the class of {op[1]}")
             elif op[0] in ("union", "union_left"):
                 in_range = all(0 <= x < len(ref.cls) for x in op[1:])
@@ -420,10 +647,59 @@ def uf_run(n: int, seq, generic: bool):
             if generic:
                 gout.append(out[-1])
             bad(f"{op} raised {core.exc_name(e)}")
-    if generic:
-        glines.append("len")
-        gout.append(f"nat {len(ds)}")
-    return lines, out, complaint, ((glines, gout) if generic else None)
+
+    def finish(self):
+        if self.generic:
+            self.glines.append("len")
+            self.gout.append(f"nat {len(self.ds)}")
+            if len(self.ds) != len(self.names):
+                self.bad("len() is not the number of values of this structure")
+        return self.lines, self.out, self.complaint, ((self.glines, self.gout) if self.generic else None)
+
+
+def uf_run(n: int, seq, generic: bool):
+    """Run `seq` on one fresh real structure.  Returns (index-level protocol lines, impl outputs on
+    indices, oracle complaint or None, None | (value-level protocol lines, impl outputs on values))."""
+    r = UFRunner(n, generic)
+    for op in seq:
+        r.step(op)
+    return r.finish()
+
+
+# --- several instances next to each other -------------------------------------------------------
+# "For every sequence of operations the structure represents exactly the partition induced by the
+# unions performed" is a statement about ONE structure: what happens to other structures, or to the
+# objects the caller handed to a constructor, is not among "the unions performed".  The families
+# above build one instance per case from a fresh argument.  Here several instances are built from the
+# SAME argument object (list or tuple) — and, for every structure, several instances of the class live
+# side by side — their operations are interleaved, and the caller also goes on using its own list.
+# Each instance must answer exactly as if it were alone: the oracle and the Lean comparison of every
+# instance see only that instance's own operations.
+
+def uf_shared_run(n: int, kind: str, seqs, schedule):
+    """`kind`: 'int' (IntDisjointSet), 'list' / 'tuple' (DisjointSet built from one shared list/tuple
+    object).  `schedule`: list of instance numbers, or -1 = the caller appends a foreign value to its
+    own list.  Returns the runners."""
+    from xdsl.utils.disjoint_set import DisjointSet, IntDisjointSet
+
+    generic = kind != "int"
+    arg: Any = [gval(i) for i in range(n)]
+    if kind == "tuple":
+        arg = tuple(arg)
+    runners = [UFRunner(n, generic, ds=(DisjointSet(arg) if generic else IntDisjointSet(size=n)), shift=40 * (j + 1))
+               for j in range(len(seqs))]
+    pos = [0] * len(seqs)
+    junk = 1000
+    for j in schedule:
+        if j < 0:
+            if kind == "list":
+                arg.append(junk); junk += 1
+        elif pos[j] < len(seqs[j]):
+            runners[j].step(seqs[j][pos[j]]); pos[j] += 1
+    for j, r in enumerate(runners):
+        for op in seqs[j][pos[j]:]:
+            r.step(op)
+    return runners
 
 
 def gds_canon(model_lines: list[str]) -> list[str]:
@@ -561,16 +837,124 @@ def run_union_find(ctx: core.Ctx, maxlen: int, nrandom: int) -> None:
     ctx.sample({"structure": "union_find", "n": nn, "generic": generic, "ops": [list(o) for o in seq][:12]})
 
 
+def uf_shared_complaints(n, kind, seqs, schedule):
+    rs = uf_shared_run(n, kind, seqs, schedule)
+    res = [r.finish() for r in rs]
+    return [(j, x) for j, x in enumerate(res) if x[2] is not None], res
+
+
+def run_uf_shared(ctx: core.Ctx, maxlen: int, nrandom: int) -> None:
+    cases: list[tuple[int, str, list, list]] = []
+    # exhaustive: two instances over the same 2 initial values, every interleaving up to `maxlen` of
+    # {add, union, union_left (also with the value added later)} on either instance and of the caller
+    # appending to its own list; then every query on both instances
+    n = 2
+    acts = [("add",), ("union", 0, 1), ("union_left", 1, 0), ("union_left", 2, 0), ("union", 1, 2)]
+    queries = ([("find", a) for a in range(n + 2)]
+               + [("connected", a, b) for a in range(n + 1) for b in range(a + 1, n + 1)] + [("roots",)])
+    alphabet = [(j, a) for j in (0, 1) for a in acts] + [(-1, None)]
+    for kind in ("list", "tuple", "int"):
+        for L in range(0, maxlen + 1):
+            for word in itertools.product(alphabet if kind == "list" else alphabet[:-1], repeat=L):
+                if kind != "list" and not any(j == 1 for j, _ in word):
+                    continue  # one instance from an immutable argument: the solo families have it
+                seqs = [[a for j, a in word if j == i] + queries for i in (0, 1)]
+                cases.append((n, kind, seqs, [j for j, _ in word]))
+    ctx.count("union_find.shared_exhaustive_cases", len(cases))
+    rnd = ctx.rng
+    for _ in range(nrandom):
+        nn = rnd.randint(0, 8)
+        kind = rnd.choice(["list", "list", "tuple", "int"])
+        seqs = []
+        for _ in range(rnd.randint(2, 3)):
+            seq, size = [], nn
+            for _ in range(rnd.randint(3, 40)):
+                r = rnd.random()
+                hi = size + (1 if rnd.random() < 0.1 else 0)
+                a, b = (rnd.randrange(hi), rnd.randrange(hi)) if hi else (0, 0)
+                if r < 0.15 and size - nn < 25:
+                    seq.append(("add",)); size += 1
+                elif r < 0.30:
+                    seq.append(("union", a, b))
+                elif r < 0.45:
+                    seq.append(("union_left", a, b))
+                elif r < 0.70:
+                    seq.append(("find", a))
+                elif r < 0.95:
+                    seq.append(("connected", a, b))
+                else:
+                    seq.append(("roots",))
+            seqs.append(seq)
+        total = sum(len(q) for q in seqs)
+        schedule = [(-1 if rnd.random() < 0.08 else rnd.randrange(len(seqs))) for _ in range(2 * total)]
+        cases.append((nn, kind, seqs, schedule))
+    i_lines: list[str] = []
+    i_impl: list[str] = []
+    g_lines: list[str] = []
+    g_impl: list[str] = []
+    for nn, kind, seqs, schedule in cases:
+        bad, res = uf_shared_complaints(nn, kind, seqs, schedule)
+        ctx.ev()
+        if sum(1 for j in set(schedule) if j >= 0 and any(o[0] in ("add", "union", "union_left") for o in seqs[j])) >= 2:
+            ctx.nt(("ufs", nn, kind, tuple(map(tuple, seqs)), tuple(schedule)))
+        if bad:
+            def still(sq, sch, nn=nn, kind=kind):
+                try:
+                    return bool(uf_shared_complaints(nn, kind, sq, sch)[0])
+                except Exception:  # noqa: BLE001
+                    return False
+            sq, sch = [list(q) for q in seqs], list(schedule)
+            if len(sch) > 6:
+                for j in range(len(sq)):
+                    sq[j] = core.shrink_list(sq[j], lambda c, j=j: still(sq[:j] + [c] + sq[j + 1:], sch))
+                sch = core.shrink_list(sch, lambda c: still(sq, c))
+            bad2, res2 = uf_shared_complaints(nn, kind, sq, sch)
+            j, (lines, out, complaint, gen) = bad2[0] if bad2 else bad[0]
+            if not bad2:
+                sq, sch = [list(q) for q in seqs], list(schedule)
+            upto = complaint[1]
+            op = lines[upto].split()[0] if upto < len(lines) else "__len__"
+            cls = "IntDisjointSet" if kind == "int" else "DisjointSet"
+            ctx.fail(f"xdsl.utils.disjoint_set.{cls}.{op}",
+                     "instance is affected by another instance / by the caller's own argument object",
+                     {"structure": "union_find_shared", "n": nn, "kind": kind, "seqs": [[list(o) for o in q] for q in sq],
+                      "schedule": sch},
+                     f"instance {j}: {complaint[0]}", (gen[1] if gen else out), None)
+        for lines, out, _c, gen in res:
+            if gen is not None:
+                g_lines.extend(gen[0]); g_impl.extend(gen[1])
+            i_lines.extend(lines); i_impl.extend(out)
+    ctx.count("union_find.shared_cases", len(cases))
+    ctx.count("union_find.shared_lines", len(i_lines) + len(g_lines))
+    for name, lines, impl, canon in (("int_disjoint_set", i_lines, i_impl, lambda x: x),
+                                     ("disjoint_set", g_lines, g_impl, gds_canon)):
+        model = canon(ctx.model(name, lines))
+        i = core.diff_streams(impl, model)
+        if i is not None:
+            j = max(k for k in range(i + 1) if lines[k].startswith("reset"))
+            key = "lines" if name == "int_disjoint_set" else "glines"
+            ctx.mismatch(f"correspondence:C12/{name}", {"structure": "union_find", key: lines[j: i + 1], "shared_instances": True},
+                         impl[j: i + 1], model[j: i + 1])
+    nn, kind, seqs, schedule = cases[len(cases) // 2]
+    ctx.sample({"structure": "union_find_shared", "n": nn, "kind": kind, "seqs": [[list(o) for o in q][:6] for q in seqs],
+                "schedule": schedule[:12]})
+
+
 def run(ctx: core.Ctx) -> None:
     ctx.lean()
     if ctx.tier == "quick":
         run_worklist(ctx, maxlen=5, nrandom=300, randlen=200)
         run_scoped_dict(ctx, maxlen=4, nrandom=300)
+        run_scoped_forest(ctx, [(4, [0, 1], [None, 1], 4), (5, [0], [None, 1], 3)], nrandom=100)
         run_union_find(ctx, maxlen=2, nrandom=600)
+        run_uf_shared(ctx, maxlen=3, nrandom=200)
     else:
         run_worklist(ctx, maxlen=6, nrandom=3000, randlen=500)
         run_scoped_dict(ctx, maxlen=5, nrandom=3000)
+        run_scoped_forest(ctx, [(4, [0, 1], [None, 0, 1], 4), (5, [0], [None, 0, 1], 4), (5, [0, 1], [None, 1], 3)],
+                          nrandom=1500)
         run_union_find(ctx, maxlen=3, nrandom=6000)
+        run_uf_shared(ctx, maxlen=4, nrandom=3000)
     ctx.exhaustive = True
     ctx.extra["exhaustive_scope"] = "all histories up to the stated length over the small universes; random beyond"
 
@@ -582,6 +966,17 @@ def replay(ctx: core.Ctx, body: dict) -> int:
         seq = [tuple(o) for o in case["ops"]]
         impl, spec = wl_impl(seq), wl_spec(seq)
         model = ctx.model("worklist", wl_lines(seq))[1:]
+    elif st == "scoped_forest":
+        if "lines" in case:
+            lines = case["lines"]; impl = body.get("impl_observation"); spec = None
+        else:
+            if "ops" in case:
+                plan = sdf_plan([tuple(o) for o in case["ops"]], case["keys"])
+            else:
+                plan = [tuple(x) if x[0] != "q" else ("q", x[1], tuple(x[2])) for x in case["plan"]]
+            lines = ["reset"] + [sdf_line(it) for it in plan]
+            impl, spec = sdf_impl(plan), sdf_spec(plan)
+        model = ctx.model("scoped_forest", lines)
     elif st == "scoped_dict":
         if "mutations" in case:
             muts = [tuple(m) for m in case["mutations"]]
@@ -590,6 +985,16 @@ def replay(ctx: core.Ctx, body: dict) -> int:
         else:
             lines = case["lines"]; impl = body.get("impl_observation"); spec = None
         model = ctx.model("scoped_dict", lines)
+    elif st == "union_find_shared":
+        bad, res = uf_shared_complaints(case["n"], case["kind"], [[tuple(o) for o in q] for q in case["seqs"]], case["schedule"])
+        for j, (lines, out, complaint, gen) in enumerate(res):
+            print(f"instance {j}: operations  :", (gen[0] if gen else lines))
+            print(f"instance {j}: implementation:", (gen[1] if gen else out))
+            print(f"instance {j}: lean model    :", gds_canon(ctx.model("disjoint_set", gen[0])) if gen
+                  else ctx.model("int_disjoint_set", lines))
+            print(f"instance {j}: oracle complaint:", complaint)
+        print("property", "FAILS" if bad else "holds", "on this case")
+        return 1 if bad else 0
     else:
         if "ops" in case:
             seq = [tuple(o) for o in case["ops"]]
